@@ -7,6 +7,7 @@ A miss is SELFTEST-MISS / SELFTEST-FALSE-ALARM and makes the run exit 2 (the che
 """
 from __future__ import annotations
 
+import json
 import os
 import sys
 from pathlib import Path
@@ -44,6 +45,42 @@ def run_corpus(pid: str, repo_root: Path) -> Dict:
         "unexpected": [{"id": v["id"], "status": st, "tail": out.strip().splitlines()[-3:]} for v, st, out in bad],
         "ids": [v["id"] for v, _, _ in res],
     }
+
+
+def run_compositions(pid: str, repo_root: Path) -> Dict:
+    """Detection under refactoring noise: every stored behaviour-preserving refactoring that this property's check leaves silent is composed with every
+    stored breaking change of this property that touches the same file; the check must still report the break."""
+    import concurrent.futures as cf
+    import importlib.util
+    spec = importlib.util.spec_from_file_location("compose_check", VERIF / "tools" / "compose_check.py")
+    cc = importlib.util.module_from_spec(spec)
+    spec.loader.exec_module(cc)
+    cc.REPO = Path(repo_root)
+    lim = json.loads((VERIF / "benign" / "known_limitations.json").read_text()) if (VERIF / "benign" / "known_limitations.json").exists() else {}
+    benign = [p for p in sorted((VERIF / "benign").glob("*/p*.diff")) if f"{p.parent.name}/{p.name}" not in lim]
+    items = []
+    for d in sorted((VERIF / "seeded").glob("*/meta.json")):
+        m = json.loads(d.read_text())
+        if m.get("property") != pid:
+            continue
+        s_ = d.parent / "patch.diff"
+        fs = cc.files_of(s_)
+        for b in benign:
+            if cc.files_of(b) & fs:
+                items.append((b, s_, pid, bool(m.get("allow_error"))))
+    stats = {"fire": 0, "noapply": 0, "MISS": 0, "error": 0}
+    bad = []
+    env_tier = os.environ.pop("VERIF_TIER", None)
+    try:
+        with cf.ThreadPoolExecutor(16) as ex:
+            for (b, s_, _, _), st, tail in ex.map(cc.run, items):
+                stats[st] += 1
+                if st in ("MISS", "error"):
+                    bad.append(f"{b.parent.name}/{b.stem} + {s_.parent.name}: {st} {tail}")
+    finally:
+        if env_tier is not None:
+            os.environ["VERIF_TIER"] = env_tier
+    return {"pairs": len(items), **stats, "disagreements": bad}
 
 
 def crosscheck_arrays(repo: core.Repo, kernels, names: List[str]) -> Dict:
